@@ -623,6 +623,10 @@ def replay_two(b):
             kind = "yield"
         except StopIteration:
             doc, kind = None, "stop"
+        except BaseException as e:  # noqa  (whatever escapes from next(generator) is the generator's outcome)
+            if isinstance(e, KeyboardInterrupt):
+                raise
+            doc, kind = None, "raised %s" % type(e).__name__
         fetched = srv.log[before:]
         want_f = [(TWO_SITES[g], k) for k in pull["fetched"]]
         if kind != pull["kind"]:
@@ -670,6 +674,17 @@ def two_generators(rep, thorough, W):
             mixed = any(a != c for a, c in zip(gs, gs[1:]))
             inter += mixed
             rep.count("two-" + jhash(b), mixed)
+            if m is not None:
+                _violate(rep, {"kind": "two", "bhv": b}, m)
+    deep = run_tlc("MC_DataClientTwo", "DataClientTwo_deep", workers=1, timeout=3000)
+    rep.add_tlc(deep, "one deep result set (1200 pages of one document each, as a time-series download has)", "DataClientTwo_deep")
+    require_ok(deep, "DataClientTwo deep paging")
+    with patched_requests():
+        for b in deep.emitted.get("BHV", []):
+            m = replay_two(b)
+            rep.replayed += 1
+            n += 1
+            rep.count("two-deep-" + jhash(b), True)
             if m is not None:
                 _violate(rep, {"kind": "two", "bhv": b}, m)
     if inter == 0:
